@@ -237,7 +237,9 @@ func (tree *MutableTree) Iterate(fn func(key []byte, value []byte) bool) (stoppe
 			return true, nil
 		}
 	}
-	return false, nil
+	// an iterator that failed is invalid as well: do not report a partial
+	// iteration as complete
+	return false, itr.Error()
 }
 
 // Iterator returns an iterator over the mutable tree.
